@@ -37,6 +37,8 @@ def check(ctx, tier):
     ctx.obligations[before:] = [o for o in ctx.obligations[before:] if o.rule.endswith("VC4")]
     report(coh, "C03.b", funcs=[IA + "__setitem__"])
     setitem_shape(ctx, tk)
+    from .C04 import geometry_equality
+    geometry_equality(ctx, tk, "C03.c")      # the shape refusal of a ragged value rests on geometry equality
     scatter(ctx, tk)
     bcast.xor_scatter(ctx, tk, "C03.g")
     bcast.column_guard(ctx, tk, "C03.g")
